@@ -164,6 +164,8 @@ SPEC["C18"] = {
          "a non-test (or no identifier at all) in test position: reported at that token"),
         ("C18_argument_at_token", "RejectFacts.illegal_arguments_rejected",
          "a tag the command does not take, a tag whose extension is not loaded, a surplus or ill-typed argument: reported at a token of the argument list"),
+        ("C18_test_argument_at_token", "RejectFacts.test_argument_rejected",
+         "a tag the test does not take / whose extension is not loaded, an ill-typed value in a test: reported at that token"),
         ("C18_lexer_moves_forward", "RejectFacts.lex_order",
          "every token after a given one, and the place of a lexical error, lie strictly after its first byte"),
         ("C18_not_inside_valid_prefix", "RejectFacts.reject_not_in_prefix",
@@ -284,12 +286,16 @@ SPEC["C01"] = {
          "the text ends while blocks are open: rejected at the end of the text"),
         ("C01_unfinished_command_rejected", "RejectFacts.unfinished_command_rejected",
          "the text ends inside a command (missing semicolon): rejected at the end of the text"),
+        ("C01_test_argument_rejected", "RejectFacts.test_argument_rejected",
+         "in the arguments of a test that still needs arguments: a tag it does not take, a tag whose extension is not loaded, a value of the wrong type -- rejected at that token"),
+        ("C01_test_argument_examples", "RejectExamples.ex_unknown_tag_in_test",
+         "non-vacuity: `if header :bogus ..` and (ex_tag_extension_in_test) `if header :regex ..` without require"),
         ("C01_malformed_list_examples", "RejectExamples.ex_missing_comma",
          "non-vacuity: `require [\"fileinto\" \"envelope\"];` rejected at the second string (with ex_empty_list, ex_trailing_comma, ex_empty_test_list, ex_unclosed_block, ex_unfinished_command)"),
         ("C01_misplaced_else_example", "RejectExamples.ex_misplaced_else",
          "non-vacuity: `stop; else { stop; } keep;` rejected with 'must follow' at the closing brace, from the theorem"),
         ("C01_reject_examples", "RejectExamples.ex_unknown",
-         "non-vacuity on the generated tables (one of eighteen examples in sieve/RejectExamples.v: prefix `require [\"fileinto\"]; if size :over 100K {`)"),
+         "non-vacuity on the generated tables (one of twenty examples in sieve/RejectExamples.v: prefix `require [\"fileinto\"]; if size :over 100K {`)"),
         ("C01_accept_final_state", "GateFacts.parse_accept_reachable",
          "an accepted script ends with an empty command stack, balanced brackets and nothing expected"),
         ("raw", """(* which commands of the current tables the interpreter theorem covers (re-checked on every run) *)
@@ -674,9 +680,12 @@ SPEC["C15"] = {
    the specified values and leaves the server with the specified data and both buffers empty, for any fuel above
    the size of the store plus the length of the session.  GETSCRIPT of a script that does not exist (NO
    NONEXISTENT, the call returns None and mirrors the code) and LOGOUT are part of the specification
-   (C15_getscript_missing, C15_logout); CAPABILITY and the connection phase are covered by the correspondence
-   check (and C16 / C10) only.""",
-    "imports": MS_IMPORTS + "From SV Require Import RenameAbs RenameData Spec SessionRename.\n",
+   (C15_getscript_missing, C15_logout), and so is CAPABILITY (ms/CapFacts.v: __read_response collects the
+   capability lines one by one, the call returns exactly the text the server wrote -- C15_capability; ms/TlsInv.v:
+   no operation but connect changes the server's TLS flag -- C15_tls_flag_invariant -- so the capability text is a
+   function of the abstract state carried through the session).  The SASL lists of the configuration are assumed
+   free of CR / LF.  Only the connection phase is left to the correspondence check (and C16 / C10).""",
+    "imports": MS_IMPORTS + "From SV Require Import TlsInv CapFacts RenameAbs RenameData Spec SessionRename.\n",
     "theorems": [
         ("C15_server_receives_one_command", "SessionFacts.srv_react_simple",
          "the reference server, in step and authenticated, receiving the bytes of one single-status command: it parses exactly that command, answers with one status reply rendered from its abstract answer, and is in step again"),
@@ -695,6 +704,16 @@ SPEC["C15"] = {
         ("C15_getscript_missing", "SessionData.getscript_missing_k_gen",
          "GETSCRIPT of a script that does not exist: None, errcode NONEXISTENT, the server's data untouched"),
         ("C15_logout", "SessionData.logout_k_gen", "LOGOUT: answered OK, the call returns None"),
+        ("C15_read_response_lines", "CapFacts.read_response_lines",
+         "__read_response over plain data lines followed by a status reply: the lines are collected in order, the reply consumed exactly"),
+        ("C15_capability", "CapFacts.capability_k_gen",
+         "CAPABILITY end to end: the call returns exactly the capability text the server wrote; server data untouched, buffers empty"),
+        ("C15_tls_flag_invariant", "TlsInv.run_op_tls",
+         "no operation but connect changes the TLS flag of the server (no command does; no such program wraps the socket)"),
+        ("C15_spec_op_invariants", "SessionRename.spec_op_runs_inv",
+         "one operation against the specification, with everything a session carries along (TLS flag, SASL lists, names, data)"),
+        ("C15_session_capability_example", "SessionRename.session_capability_example",
+         "non-vacuity: CAPABILITY and LOGOUT in a session, the capability text spelled out"),
         ("C15_session_with_data", "SessionData.session_with_data",
          "sessions of all eight operations, any length, any encoding choices"),
         ("C15_session_with_data_example", "SessionData.session_data_example",
